@@ -17,22 +17,66 @@ import (
 type PathQuery struct {
 	Avoid    func(ssa.Instruction) bool
 	SkipEdge func(from *ssa.BasicBlock, succ int) bool
+	// Root restricts the returns of inlined callees to call sites inside this host (nil: every inlined site).
+	Root *ssa.Function
 }
 
 // Reaches runs the query starting at instruction index idx of block b.
-// It returns a witness block trace when a path exists.
+// It returns a witness block trace when a path exists. With virtual inlining (inline.go) the walk enters an
+// inlined callee at its call site and continues after the call from the callee's returns.
 func (q PathQuery) Reaches(b *ssa.BasicBlock, idx int, target func(ssa.Instruction) bool) (bool, []int) {
-	type item struct {
-		b    *ssa.BasicBlock
-		idx  int
-		prev *item
+	// call stack of inlined sites entered during the walk (context-sensitive returns); frames are interned so that
+	// two equal stacks are the same pointer
+	type frame struct {
+		site *ssa.Call
+		up   *frame
 	}
-	seen := map[*ssa.BasicBlock]bool{}
-	work := []*item{{b, idx, nil}}
+	type fkey struct {
+		site *ssa.Call
+		up   *frame
+	}
+	frames := map[fkey]*frame{}
+	pushFrame := func(site *ssa.Call, up *frame) *frame {
+		k := fkey{site, up}
+		if f, ok := frames[k]; ok {
+			return f
+		}
+		f := &frame{site, up}
+		frames[k] = f
+		return f
+	}
+	depth := func(f *frame) int {
+		n := 0
+		for ; f != nil; f = f.up {
+			n++
+		}
+		return n
+	}
+	type item struct {
+		b     *ssa.BasicBlock
+		idx   int
+		stack *frame
+		prev  *item
+	}
+	type pos struct {
+		b     *ssa.BasicBlock
+		idx   int
+		stack *frame
+	}
+	seen := map[pos]bool{}
+	work := []*item{{b, idx, nil, nil}}
+	push := func(nb *ssa.BasicBlock, ni int, st *frame, prev *item) {
+		k := pos{nb, ni, st}
+		if seen[k] {
+			return
+		}
+		seen[k] = true
+		work = append(work, &item{nb, ni, st, prev})
+	}
 	for len(work) > 0 {
 		it := work[0]
 		work = work[1:]
-		blocked := false
+		stopped := false
 		for i := it.idx; i < len(it.b.Instrs); i++ {
 			in := it.b.Instrs[i]
 			if target(in) {
@@ -43,22 +87,40 @@ func (q PathQuery) Reaches(b *ssa.BasicBlock, idx int, target func(ssa.Instructi
 				return true, tr
 			}
 			if q.Avoid != nil && q.Avoid(in) {
-				blocked = true
+				stopped = true
+				break
+			}
+			if h := InlinedCallee(in); h != nil && depth(it.stack) < 6 {
+				// the instructions after the call are reached from the callee's returns
+				push(h.Blocks[0], 0, pushFrame(in.(*ssa.Call), it.stack), it)
+				stopped = true
+				break
+			}
+			if ret, ok := in.(*ssa.Return); ok && IsInlined(ret.Parent()) {
+				if it.stack != nil && InlinedCallee(it.stack.site) == ret.Parent() {
+					s := it.stack.site
+					push(s.Block(), InstrIndex(s)+1, it.stack.up, it)
+				} else {
+					// the walk started inside the callee: it may have been entered from any of its sites
+					for _, s := range InlineSites(ret.Parent()) {
+						if q.Root != nil && !InBody(q.Root, s.Parent()) {
+							continue
+						}
+						push(s.Block(), InstrIndex(s)+1, nil, it)
+					}
+				}
+				stopped = true
 				break
 			}
 		}
-		if blocked {
+		if stopped {
 			continue
 		}
 		for si, s := range it.b.Succs {
 			if q.SkipEdge != nil && q.SkipEdge(it.b, si) {
 				continue
 			}
-			if seen[s] {
-				continue
-			}
-			seen[s] = true
-			work = append(work, &item{s, 0, it})
+			push(s, 0, it.stack, it)
 		}
 	}
 	return false, nil
@@ -70,16 +132,19 @@ func isInstr(x ssa.Instruction) func(ssa.Instruction) bool {
 
 // IsExit matches normal function exits (return). Panics are not exits.
 func IsExit(i ssa.Instruction) bool {
-	_, ok := i.(*ssa.Return)
-	return ok
+	r, ok := i.(*ssa.Return)
+	return ok && !IsInlined(r.Parent())
 }
 
 // AlwaysBefore reports whether every path from the function entry to x
 // executes an instruction of the set first (set-dominance).
 func AlwaysBefore(set func(ssa.Instruction) bool, x ssa.Instruction) (bool, []int) {
-	fn := x.Parent()
-	r, tr := PathQuery{Avoid: set}.Reaches(fn.Blocks[0], 0, isInstr(x))
-	return !r, tr
+	for _, root := range Roots(x.Parent()) {
+		if r, tr := (PathQuery{Avoid: set, Root: root}).Reaches(root.Blocks[0], 0, isInstr(x)); r {
+			return false, tr
+		}
+	}
+	return true, nil
 }
 
 // InstrBefore: every path to b executes a first.
@@ -106,8 +171,12 @@ func CanFollow(a, b ssa.Instruction) bool {
 
 // ReachableFromEntry reports whether x is reachable at all.
 func ReachableFromEntry(x ssa.Instruction) bool {
-	r, _ := PathQuery{}.Reaches(x.Parent().Blocks[0], 0, isInstr(x))
-	return r
+	for _, root := range Roots(x.Parent()) {
+		if r, _ := (PathQuery{Root: root}).Reaches(root.Blocks[0], 0, isInstr(x)); r {
+			return true
+		}
+	}
+	return false
 }
 
 // OnlyViaEdge reports whether every path from entry to x takes edge from->Succs[succ].
@@ -115,8 +184,12 @@ func OnlyViaEdge(x ssa.Instruction, from *ssa.BasicBlock, succ int) bool {
 	if !ReachableFromEntry(x) {
 		return false
 	}
-	r, _ := PathQuery{SkipEdge: func(b *ssa.BasicBlock, s int) bool { return b == from && s == succ }}.Reaches(x.Parent().Blocks[0], 0, isInstr(x))
-	return !r
+	for _, root := range Roots(x.Parent()) {
+		if r, _ := (PathQuery{SkipEdge: func(b *ssa.BasicBlock, s int) bool { return b == from && s == succ }, Root: root}).Reaches(root.Blocks[0], 0, isInstr(x)); r {
+			return false
+		}
+	}
+	return true
 }
 
 // OnCycle reports whether instruction x lies on a CFG cycle of its function.
@@ -128,7 +201,7 @@ func OnCycle(x ssa.Instruction) bool {
 // Ifs returns the If terminators of fn.
 func Ifs(fn *ssa.Function) []*ssa.If {
 	var out []*ssa.If
-	for _, b := range fn.Blocks {
+	for _, b := range Blocks(fn) {
 		if len(b.Instrs) == 0 {
 			continue
 		}
@@ -203,7 +276,35 @@ func Origins(v ssa.Value) []ssa.Value {
 		seen[v] = true
 		switch x := v.(type) {
 		case *ssa.Extract:
+			if c, ok := x.Tuple.(*ssa.Call); ok && InlinedCallee(c) != nil {
+				rs := inlinedResults(c, x.Index)
+				for _, r := range rs {
+					rec(r)
+				}
+				if len(rs) > 0 {
+					return
+				}
+			}
 			rec(x.Tuple)
+		case *ssa.Parameter:
+			if args := inlinedArgs(x); len(args) > 0 {
+				for _, a := range args {
+					rec(a)
+				}
+				return
+			}
+			out = append(out, v)
+		case *ssa.Call:
+			if InlinedCallee(x) != nil && x.Call.Signature().Results().Len() == 1 {
+				rs := inlinedResults(x, 0)
+				for _, r := range rs {
+					rec(r)
+				}
+				if len(rs) > 0 {
+					return
+				}
+			}
+			out = append(out, v)
 		case *ssa.Phi:
 			for _, e := range x.Edges {
 				rec(e)
@@ -266,10 +367,17 @@ func (g Guard) CondTrue() bool { return g.Succ == 0 }
 // GuardsOf lists every If outcome edge that all paths to x must take.
 func GuardsOf(x ssa.Instruction) []Guard {
 	var out []Guard
-	for _, i := range Ifs(x.Parent()) {
-		for s := 0; s < 2; s++ {
-			if OnlyViaEdge(x, i.Block(), s) {
-				out = append(out, Guard{i, s})
+	seen := map[*ssa.If]bool{}
+	for _, root := range Roots(x.Parent()) {
+		for _, i := range Ifs(root) {
+			if seen[i] {
+				continue
+			}
+			seen[i] = true
+			for s := 0; s < 2; s++ {
+				if OnlyViaEdge(x, i.Block(), s) {
+					out = append(out, Guard{i, s})
+				}
 			}
 		}
 	}
@@ -431,7 +539,7 @@ func FieldBase(v ssa.Value) ssa.Value {
 // StoresToField lists the stores in fn whose address is the given field key.
 func StoresToField(fn *ssa.Function, key string) []*ssa.Store {
 	var out []*ssa.Store
-	for _, b := range fn.Blocks {
+	for _, b := range Blocks(fn) {
 		for _, in := range b.Instrs {
 			if st, ok := in.(*ssa.Store); ok {
 				if fa, ok := st.Addr.(*ssa.FieldAddr); ok && FieldKey(fa) == key {
@@ -446,7 +554,7 @@ func StoresToField(fn *ssa.Function, key string) []*ssa.Store {
 // LoadsOfField lists the loads (UnOp MUL of FieldAddr, or Field) of the given field key in fn.
 func LoadsOfField(fn *ssa.Function, key string) []ssa.Value {
 	var out []ssa.Value
-	for _, b := range fn.Blocks {
+	for _, b := range Blocks(fn) {
 		for _, in := range b.Instrs {
 			switch x := in.(type) {
 			case *ssa.UnOp:
